@@ -226,4 +226,6 @@ type Agg struct {
 	Samples   []any
 	CasesDone int
 	Crashes   int
+
+	sampleKinds map[string]int
 }
